@@ -66,6 +66,9 @@ var lfSpecs = []lfGuardSpec{
 	{"internal/binutils", "file", "isData", "file", "baseOnce", "once"},
 	{"internal/binutils", "addr2Liner", "rw", "addr2Liner", "mu", "mutex"},
 	{"internal/binutils", "llvmSymbolizer", "rw", "llvmSymbolizer", "Mutex", "mutex"},
+	// lazily created nm-based symbolizer of a file opened in fast mode (guard added by
+	// fixes/C20-fileNM-lazy-init.patch; without it this row is an error: "guard not found")
+	{"internal/binutils", "fileNM", "addr2linernm", "fileNM", "mu", "mutex"},
 }
 
 // structs whose fields may only be written while the object is fresh (copy-on-write values)
